@@ -188,6 +188,7 @@ MUTANTS = [
     M("D16-reverted: replace_group_leader(l, l) pops the group", [(F_GL, _RGL_FIXED, _RGL_OLD)], "R-comutation", "replace_group_leader", quick=True),
     M("D17-reverted: any(found) in get_group", [(F_GL, "        if len(found) > 0:\n            return found[0]", "        if any(found):\n            return found[0]")], "R-value-truthiness", "get_group", quick=True),
     M("D15-reverted: default group appended unconditionally", [(F_QUAL, "                if self.str_default not in order:\n                    order.append(self.str_default)\n", "                order.append(self.str_default)\n")], "R-append-absent", "CategoricalDiscretizer.fit", quick=True),
+    M("D28-reverted: unknown value appended although StringDiscretizer may have recorded it", [(F_QUAL, "                        if unknown_value not in order:\n                            order.append(unknown_value)\n", "                        order.append(unknown_value)\n")], "R-append-absent", "unknown_value", quick=True),
     M("D8-reverted: str_nan appended for every unknown value", [(F_QUAL, "                        if self.str_nan not in order:\n                            order.append(self.str_nan)\n", "                        order.append(self.str_nan)\n")], "R-append-absent", "ChainedDiscretizer._prepare_data"),
     M("remove forgets content", [(F_GL, "        super().remove(value)\n        self.content.pop(value)\n", "        super().remove(value)\n")], "R-comutation", "GroupedList.remove"),
     M("append forgets content", [(F_GL, "        self += [new_value]\n        self.content.update({new_value: [new_value]})\n", "        self += [new_value]\n")], "R-comutation", "GroupedList.append"),
